@@ -313,3 +313,6 @@ RULES = [r1_raise_not_discard, r2_healthcheck, r3_r6_executor_loop, r4_bridge_fa
 
 from .common import lazy  # noqa: E402
 RULES.append(lazy("C02", "r_message_dedup", "a failure message whose first transmission was lost must still be delivered when it is retried"))
+
+from .shm import r_client_failures  # noqa: E402
+RULES.append(r_client_failures)
